@@ -2,7 +2,7 @@
    Only ExtrOcamlBasic is used: nat, Z stay the extracted inductive types. *)
 From Coq Require Import List ZArith Extraction ExtrOcamlBasic.
 From LMBase Require Import Res ListX.
-From LMDense Require Import DenseModel DenseProofs DenseReg DenseCheck.
+From LMDense Require Import DenseModel DenseProofs DenseReg DenseCheck DenseSteps.
 
 Definition z_t_run := @t_run Z 0%Z.
 Definition z_s_run := @s_run_pads Z 0%Z.
@@ -26,9 +26,10 @@ Definition z_check_fobs (C : nat) (pat : list bool) := @check_fobs Z C Z.eqb pat
 Definition z_first_bad (C S : nat) := @first_bad Z 0%Z C S Z.eqb.
 Definition z_m_observe (S : nat) := @m_observe Z S Z.eqb.
 Definition z_take_mixed_o := @take_mixed_o Z.
+Definition z_take_steps := @take_steps Z.
 
 Extraction Language OCaml.
 Extraction "dense_model.ml" z_t_run z_s_run z_abs z_ravel z_s_eqb z_s_fill z_s_set z_s_clone z_take_mixed
   stride row_bytes row_addr
   z_rt_step z_rs_step z_mabs z_new0 z_check_C19 z_check_robs z_check_mobs z_check_fobs z_first_bad
-  z_m_observe z_take_mixed_o mixed_lens.
+  z_m_observe z_take_mixed_o mixed_lens z_take_steps steps_lens.
